@@ -497,7 +497,35 @@ func (e *Exec) libModel(st *State, callee *ssa.Function, cc *ssa.CallCommon, arg
 				return true, true, nil
 			}
 		}
-	case "time.Now", "(time.Time).UTC", "(time.Time).Add", "(time.Time).In", "(time.Time).Truncate", "time.Since", "(time.Time).Sub":
+	case "(time.Time).UTC", "(time.Time).In", "(time.Time).Local":
+		// the same instant in another location: seconds, nanoseconds and zero-ness are those of the receiver
+		used()
+		r := e.freshVal(st, "time", resT)
+		e.timeFuns(args[0].T)
+		for _, f := range []string{"time.unix", "time.nsec", "time.unixnano", "time.iszero"} {
+			e.assume(st, eq(fmt.Sprintf("(%s %s)", f, r.S), fmt.Sprintf("(%s %s)", f, args[0].S)))
+		}
+		set(r)
+		return true, true, nil
+	case "(time.Time).Unix", "(time.Time).UnixNano", "(time.Time).Nanosecond", "(time.Time).IsZero":
+		// observers of an instant: uninterpreted functions of the time value (no relation between
+		// Unix/Nanosecond and UnixNano is assumed: UnixNano is undefined outside 1678..2262)
+		used()
+		e.timeFuns(args[0].T)
+		switch name {
+		case "(time.Time).Unix":
+			set(Val{T: resT, S: fmt.Sprintf("(time.unix %s)", args[0].S)})
+		case "(time.Time).UnixNano":
+			set(Val{T: resT, S: fmt.Sprintf("(time.unixnano %s)", args[0].S)})
+		case "(time.Time).IsZero":
+			set(Val{T: resT, S: fmt.Sprintf("(time.iszero %s)", args[0].S)})
+		default:
+			t := fmt.Sprintf("(time.nsec %s)", args[0].S)
+			e.assume(st, and(e.le(e.sc.idxLit(0), t), e.lt(t, e.sc.idxLit(1000000000))))
+			set(Val{T: resT, S: t})
+		}
+		return true, true, nil
+	case "time.Now", "(time.Time).Add", "(time.Time).Truncate", "time.Since", "(time.Time).Sub":
 		used()
 		set(e.freshVal(st, "time", resT))
 		return true, true, nil
@@ -508,6 +536,20 @@ func (e *Exec) libModel(st *State, callee *ssa.Function, cc *ssa.CallCommon, arg
 		return e.reflectModel(st, name, callee, cc, args, dst, resT)
 	}
 	return false, true, nil
+}
+
+// timeFuns declares the observers of time.Time values.
+func (e *Exec) timeFuns(t types.Type) {
+	if e.sc.funs["time.unix"] {
+		return
+	}
+	e.sc.funs["time.unix"] = true
+	srt := e.sc.sortOf(t)
+	i64 := e.sc.sortOf(types.Typ[types.Int64])
+	e.sc.emit(fmt.Sprintf("(declare-fun time.unix (%s) %s)", srt, i64))
+	e.sc.emit(fmt.Sprintf("(declare-fun time.unixnano (%s) %s)", srt, i64))
+	e.sc.emit(fmt.Sprintf("(declare-fun time.nsec (%s) %s)", srt, e.sc.idx()))
+	e.sc.emit(fmt.Sprintf("(declare-fun time.iszero (%s) Bool)", srt))
 }
 
 func (e *Exec) bitsModel(st *State, name string, x Val) (string, bool) {
